@@ -85,7 +85,7 @@ func runRace(c *core.Ctx) {
 		return
 	}
 	buildS := time.Since(t0).Seconds()
-	n := c.Pick(10, 120)
+	n := c.Pick(6, 40)
 	scs := makeRaceScenarios(c, n)
 	a := &agg{resCount: map[string]int{}}
 	var mu = &a.mu
@@ -147,10 +147,14 @@ func makeRaceScenarios(c *core.Ctx, n int) []Scenario {
 		scs[i].ID = 5000 + i
 		scs[i].Seed += 77
 		scs[i].Prepop = 300 // the detector slows everything ~10x
-		if scs[i].Ops > 8 {
-			scs[i].Ops = 8
+		// long concurrent phase, Close late: races need overlapping accesses, not many scenarios
+		scs[i].Workers = 6 + c.Rand.Intn(3)
+		scs[i].Ops = 16 + c.Rand.Intn(10)
+		total := scs[i].Workers * scs[i].Ops
+		if !strings.HasPrefix(scs[i].CloseAt, "gate:") || i%2 == 0 {
+			scs[i].CloseAt = fmt.Sprintf("ops:%d", total*6/10+c.Rand.Intn(total*4/10))
 		}
-		scs[i].WatchdogS = 400
+		scs[i].WatchdogS = 600
 	}
 	return scs
 }
